@@ -28,6 +28,18 @@ structure PrimsOk (P : Prims) : Prop where
     (∀ k iv n, (stream k iv n).length = n) ∧ ∀ k iv m, P.ctr k iv m = xorBytes m (stream k iv m.length)
   cmac_len : ∀ k m, 4 ≤ (P.cmac k m).length
 
+/-- a toy instance of the primitives used by the witnesses and satisfiability examples of C06/C10: CTR xors every octet with octet 4 of the
+    counter block (BEARER ‖ DIRECTION), the CMAC tag is constant -/
+def toyPrims : Prims :=
+  { aes := fun _ b => b,
+    ctr := fun _ iv m => xorBytes m (List.replicate m.length (iv.getD 4 0 ||| 0x80)),
+    cmac := fun _ _ => [0xa0, 0xa1, 0xa2, 0xa3],
+    hmac := fun _ _ => [] }
+
+theorem toyPrims_ok : PrimsOk toyPrims :=
+  ⟨⟨fun _ iv n => List.replicate n (iv.getD 4 0 ||| 0x80), fun _ _ _ => by simp, fun _ _ _ => rfl⟩,
+   fun _ _ => by simp [toyPrims]⟩
+
 theorem mac_tie (P : Prims) (ia : UInt8) (k : Bytes) (c : UInt32) (d : UInt8) (msg : Bytes)
     (hia : ia = 1 ∨ ia = 2) (hd : d.toNat < 2) (hm : msg ≠ []) :
     ∃ m, nasMac P ia k c bearer3GPP d msg = .ok m ∧ Spec.NasAlg.nia P ia.toNat k c 1 d.toNat msg = some m := by
@@ -383,5 +395,287 @@ theorem dl_step (P : Prims) (hP : PrimsOk P) (ue : UeSec) (hs : Supported ue) (s
         (by rw [hest]; exact hmac') (by rw [hest]; exact hdec)
       rw [hest, handToPlainDecode_ne plain hne] at this
       simpa [nasDecode] using this
+
+/-! ### uplink histories -/
+
+/-- the specification's view of one `NASEncode` call -/
+def toSend (op : UlOp) : UlSend :=
+  { ctxAvail := op.ctxAvail, newCtx := op.newCtx, epd := op.epd, sht := op.sht.toNat, plain := op.plain }
+
+/-- header types 1..4 whenever the message is protected (the property's domain) -/
+def UlInScope (op : UlOp) : Prop := op.ctxAvail = true → protectedType op.sht.toNat = true
+
+theorem plain_passthrough (P : Prims) (ue : UeSec) (op : UlOp) (h : op.ctxAvail = false) :
+    nasEncode P ue op = (ue, .ok op.plain) := by
+  simp [nasEncode, nasEncodeCore, h]
+
+/-- one `NASEncode` call against the conformant UE of the specification, everything the history induction needs -/
+theorem ul_step_full (P : Prims) (ue : UeSec) (op : UlOp) (hs : Supported ue) (hsc : UlInScope op) :
+    ∃ out,
+      (ueProtect P (ctxOf ue) ⟨cval ue.ulCount⟩ op.ctxAvail op.newCtx op.epd op.sht.toNat op.plain).2.2 = some out ∧
+      (nasEncode P ue op).2 = .ok out ∧
+      cval (nasEncode P ue op).1.ulCount =
+        (ueProtect P (ctxOf ue) ⟨cval ue.ulCount⟩ op.ctxAvail op.newCtx op.epd op.sht.toNat op.plain).1.count ∧
+      cval (nasEncode P ue op).1.dlCount = (if op.ctxAvail && op.newCtx then 0 else cval ue.dlCount) ∧
+      ctxOf (nasEncode P ue op).1 = ctxOf ue ∧ Supported (nasEncode P ue op).1 := by
+  cases hctx : op.ctxAvail
+  · rw [plain_passthrough P ue op hctx]
+    exact ⟨op.plain, by simp [ueProtect], rfl, by simp [ueProtect], by simp, rfl, hs⟩
+  · obtain ⟨body, mac, hb, hm, he⟩ := ul_step P ue op hs hctx
+    have hpt := hsc hctx
+    refine ⟨_, ?_, by rw [he], ?_, ?_, ?_, ?_⟩
+    · simp [ueProtect, protect, hpt, hb, hm]
+    · rw [he]; simp only [ueProtect, Bool.not_true, Bool.false_eq_true, if_false]
+      rw [cval_addOne_get, cval_afterReset_ul, countMod]
+    · rw [he]; simp only [Bool.true_and]
+      exact cval_afterReset_dl ue op.newCtx
+    · rw [he]; cases op.newCtx <;> simp [afterReset, ctxOf]
+    · rw [he]; cases op.newCtx <;> simpa [afterReset, Supported] using hs
+
+
+/-- **uplink histories**: over any sequence of calls on one UE context the model emits, message for message,
+    what the conformant UE of the specification emits from the same NAS COUNT, every call succeeds, and the
+    counters stay in step. -/
+theorem ul_history (P : Prims) (ue : UeSec) (ops : List UlOp) (hs : Supported ue) (hsc : ∀ op ∈ ops, UlInScope op) :
+    (runEncode P ue ops).2.map Except.toOption
+        = (ueRun P (ctxOf ue) ⟨cval ue.ulCount⟩ (ops.map toSend)).2.map (·.2) ∧
+    (∀ r ∈ (runEncode P ue ops).2, ∃ b, r = .ok b) ∧
+    cval (runEncode P ue ops).1.ulCount = (ueRun P (ctxOf ue) ⟨cval ue.ulCount⟩ (ops.map toSend)).1.count ∧
+    ctxOf (runEncode P ue ops).1 = ctxOf ue ∧ Supported (runEncode P ue ops).1 := by
+  induction ops generalizing ue with
+  | nil => simp [runEncode, ueRun, hs]
+  | cons op ops ih =>
+    obtain ⟨out, h1, h2, h3, -, h5, h6⟩ := ul_step_full P ue op hs (hsc op (by simp))
+    obtain ⟨i1, i2, i3, i4, i5⟩ := ih (nasEncode P ue op).1 h6 (fun o ho => hsc o (by simp [ho]))
+    rw [h5, h3] at i1 i3
+    simp only [runEncode, ueRun, List.map_cons, toSend] at i1 i3 ⊢
+    refine ⟨?_, ?_, i3, by rw [i4, h5], i5⟩
+    · rw [h2, i1]; simp [Except.toOption, toSend] at h1 ⊢; exact h1.symm
+    · intro r hr
+      rcases List.mem_cons.mp hr with rfl | hr
+      · exact ⟨out, h2⟩
+      · exact i2 r hr
+
+
+/-! ### COUNT in closed form -/
+
+/-- number of protected sends in a history -/
+def protectedSends (ops : List UlOp) : Nat := (ops.filter (·.ctxAvail)).length
+
+/-- no step of the history takes a new security context into use -/
+def NoNewContext (ops : List UlOp) : Prop := ∀ op ∈ ops, ¬ (op.ctxAvail = true ∧ op.newCtx = true)
+
+theorem runEncode_append (P : Prims) (ue : UeSec) (a b : List UlOp) :
+    runEncode P ue (a ++ b) =
+      ((runEncode P (runEncode P ue a).1 b).1, (runEncode P ue a).2 ++ (runEncode P (runEncode P ue a).1 b).2) := by
+  induction a generalizing ue with
+  | nil => simp [runEncode]
+  | cons x xs ih => simp [runEncode, ih]
+
+/-- without a new context in between, the UL NAS COUNT has advanced by the number of protected sends, modulo 2^24 -/
+theorem count_after (P : Prims) (ue : UeSec) (ops : List UlOp) (hs : Supported ue)
+    (hsc : ∀ op ∈ ops, UlInScope op) (hnn : NoNewContext ops) :
+    cval (runEncode P ue ops).1.ulCount = (cval ue.ulCount + protectedSends ops) % 2 ^ 24 ∧
+    ctxOf (runEncode P ue ops).1 = ctxOf ue ∧ Supported (runEncode P ue ops).1 := by
+  induction ops generalizing ue with
+  | nil => simp [runEncode, protectedSends, hs, Nat.mod_eq_of_lt (cval_lt _)]
+  | cons op ops ih =>
+    obtain ⟨out, -, -, h3, -, h5, h6⟩ := ul_step_full P ue op hs (hsc op (by simp))
+    obtain ⟨i1, i2, i3⟩ := ih (nasEncode P ue op).1 h6 (fun o ho => hsc o (by simp [ho]))
+      (fun o ho => hnn o (by simp [ho]))
+    simp only [runEncode]
+    refine ⟨?_, by rw [i2, h5], i3⟩
+    rw [i1, h3]
+    have hno := hnn op (by simp)
+    cases hc : op.ctxAvail
+    · simp [ueProtect, protectedSends, hc]
+    · have hn : op.newCtx = false := by
+        cases hn : op.newCtx
+        · rfl
+        · exact absurd ⟨hc, hn⟩ hno
+      simp [ueProtect, protectedSends, hc, hn, countMod]
+      omega
+
+/-- the last message of `ops ++ [o]` (no new context anywhere, `o` protected) carries
+    COUNT = start + number of protected sends before it, modulo 2^24 -/
+theorem count_from (P : Prims) (ue : UeSec) (ops : List UlOp) (o : UlOp) (hs : Supported ue)
+    (hsc : ∀ op ∈ ops, UlInScope op) (hnn : NoNewContext ops)
+    (hso : UlInScope o) (hoc : o.ctxAvail = true) (hon : o.newCtx = false) :
+    ∃ out, (runEncode P ue (ops ++ [o])).2.getLast? = some (.ok out) ∧
+      protect P (ctxOf ue) uplink ((cval ue.ulCount + protectedSends ops) % 2 ^ 24) o.epd o.sht.toNat o.plain = some out := by
+  obtain ⟨h1, h2, h3⟩ := count_after P ue ops hs hsc hnn
+  obtain ⟨out, k1, k2, -⟩ := ul_step_full P (runEncode P ue ops).1 o h3 hso
+  refine ⟨out, ?_, ?_⟩
+  · rw [runEncode_append]; simp [runEncode, k2]
+  · rw [h2, h1] at k1
+    simpa [ueProtect, hoc, hon] using k1
+
+
+theorem getLast?_append_cons_of {α : Type} (a : List α) (r : α) (rest : List α) (x : α)
+    (h : rest.getLast? = some x) : (a ++ r :: rest).getLast? = some x := by
+  cases rest with
+  | nil => simp at h
+  | cons y ys =>
+    rw [List.getLast?_append, List.getLast?_cons_cons, h]; rfl
+
+/-- **the n-th message since the context was taken into use carries COUNT n − 1 (mod 2^24)**:
+    after any prefix, `o₀` takes a new context into use (it is message 1, COUNT 0 — see `ul_step`), `mid` follows
+    without a new context, then `o` is message n = protectedSends mid + 2 and is protected under COUNT n − 1. -/
+theorem count_nth (P : Prims) (ue : UeSec) (pre mid : List UlOp) (o₀ o : UlOp) (hs : Supported ue)
+    (hpre : ∀ op ∈ pre, UlInScope op) (hmid : ∀ op ∈ mid, UlInScope op) (hs₀ : UlInScope o₀) (hso : UlInScope o)
+    (h₀ : o₀.ctxAvail = true ∧ o₀.newCtx = true) (hnn : NoNewContext mid)
+    (hoc : o.ctxAvail = true) (hon : o.newCtx = false) :
+    ∃ out, (runEncode P ue (pre ++ o₀ :: (mid ++ [o]))).2.getLast? = some (.ok out) ∧
+      protect P (ctxOf ue) uplink ((protectedSends mid + 1) % 2 ^ 24) o.epd o.sht.toNat o.plain = some out := by
+  obtain ⟨-, -, -, p4, p5⟩ := ul_history P ue pre hs hpre
+  obtain ⟨out₀, -, -, q3, -, q5, q6⟩ := ul_step_full P (runEncode P ue pre).1 o₀ p5 hs₀
+  have hc1 : cval (nasEncode P (runEncode P ue pre).1 o₀).1.ulCount = 1 := by
+    rw [q3]; simp [ueProtect, h₀.1, h₀.2, countMod]
+  obtain ⟨out, r1, r2⟩ := count_from P (nasEncode P (runEncode P ue pre).1 o₀).1 mid o q6 hmid hnn hso hoc hon
+  refine ⟨out, ?_, ?_⟩
+  · rw [runEncode_append]
+    simp only [runEncode]
+    exact getLast?_append_cons_of _ _ _ _ r1
+  · rw [q5, p4, hc1, Nat.add_comm] at r2
+    exact r2
+
+
+/-! ### downlink histories -/
+
+/-- UE and AMF are in step: the AMF's stored DL NAS COUNT (the value of its next message) is the UE's estimate
+    (nothing protected was delivered under this context yet) or one more (the UE holds the last delivered COUNT) -/
+def InStep (ue : UeSec) (s : Sender) : Prop :=
+  s.count < 2 ^ 24 ∧ (s.count = cval ue.dlCount ∨ s.count = (cval ue.dlCount + 1) % 2 ^ 24)
+
+/-- the property's domain for one delivered downlink message: header type 0..4, fewer than 255 undelivered
+    messages before it (the COUNT advances by < 256 between deliveries), a non-empty plain message -/
+def DlInScope (m : DlSend) : Prop := m.sht ≤ 4 ∧ m.lost < 255 ∧ m.plain ≠ []
+
+theorem protect_some (P : Prims) (ue : UeSec) (hs : Supported ue) (dir c : Nat) (epd : UInt8) (sht : Nat) (plain : Bytes)
+    (hpt : protectedType sht = true) : ∃ out, protect P (ctxOf ue) dir c epd sht plain = some out := by
+  have hb : ∃ body, bodyAsSent P (ctxOf ue) dir c sht plain = some body := by
+    unfold bodyAsSent
+    cases ciphered sht
+    · exact ⟨plain, by simp⟩
+    · rcases hs.2 with h | h | h <;> simp [ctxOf, h, Spec.NasAlg.nea]
+  obtain ⟨body, hb⟩ := hb
+  have hm : ∃ mac, macOf P (ctxOf ue) dir c body = some mac := by
+    unfold macOf
+    rcases hs.1 with h | h <;> simp [ctxOf, h, Spec.NasAlg.nia]
+  obtain ⟨mac, hm⟩ := hm
+  exact ⟨[epd, UInt8.ofNat sht] ++ mac ++ [UInt8.ofNat (sqnOf c)] ++ body, by simp [protect, hpt, hb, hm]⟩
+
+theorem cval_ofNat (c : Nat) (hc : c < 2 ^ 24) : cval (UInt32.ofNat c) = c := by
+  unfold cval; rw [UInt32.toNat_ofNat']; omega
+
+/-- one delivered downlink message of the conformant AMF against `NASDecode`, everything the induction needs -/
+theorem dl_step_full (P : Prims) (hP : PrimsOk P) (ue : UeSec) (s : Sender) (m : DlSend)
+    (hs : Supported ue) (hin : InStep ue s) (hsc : DlInScope m) :
+    ∃ out,
+      (amfProtect P (ctxOf ue) s m.lost m.epd m.sht m.plain).2.2 = some out ∧
+      nasDecode P ue (UInt8.ofNat m.sht) out =
+        ((match (amfProtect P (ctxOf ue) s m.lost m.epd m.sht m.plain).2.1 with
+          | some c => { ue with dlCount := UInt32.ofNat c }
+          | none => ue), .ok m.plain) ∧
+      (∀ c, (amfProtect P (ctxOf ue) s m.lost m.epd m.sht m.plain).2.1 = some c → c < 2 ^ 24) ∧
+      InStep (nasDecode P ue (UInt8.ofNat m.sht) out).1 (amfProtect P (ctxOf ue) s m.lost m.epd m.sht m.plain).1 := by
+  obtain ⟨hsht, hlost, hne⟩ := hsc
+  by_cases h0 : m.sht = 0
+  · refine ⟨m.plain, by simp [amfProtect, h0], ?_, by simp [amfProtect, h0], ?_⟩
+    · simp [amfProtect, h0, nasDecode, nasDecodeCore, handToPlainDecode_ne m.plain hne]
+    · simpa [amfProtect, h0, nasDecode, nasDecodeCore] using hin
+  · have hpt : protectedType m.sht = true := by
+      have : m.sht = 1 ∨ m.sht = 2 ∨ m.sht = 3 ∨ m.sht = 4 := by omega
+      rcases this with h | h | h | h <;> simp [protectedType, h]
+    have hb0 : (m.sht == 0) = false := by simpa using h0
+    have hd := cval_lt ue.dlCount
+    obtain ⟨hlt, hstep⟩ := hin
+    have hc : ((if newContext m.sht then 0 else s.count) + m.lost) % countMod < 2 ^ 24 := by
+      unfold countMod; omega
+    have hdelta : (((if newContext m.sht then 0 else s.count) + m.lost) % countMod + 2 ^ 24
+        - (if newContext m.sht then 0 else cval ue.dlCount)) % 2 ^ 24 < 256 := by
+      unfold countMod
+      cases newContext m.sht
+      · simp only [Bool.false_eq_true, if_false]
+        rcases hstep with h | h <;> rw [h] <;> omega
+      · simp only [if_true]; omega
+    obtain ⟨out, hout⟩ := protect_some P ue hs downlink
+      (((if newContext m.sht then 0 else s.count) + m.lost) % countMod) m.epd m.sht m.plain hpt
+    have hdec := dl_step P hP ue hs m.sht _ m.epd m.plain out hne hc hdelta hout
+    refine ⟨out, by simp [amfProtect, hb0, hout], ?_, ?_, ?_⟩
+    · rw [hdec]; simp [amfProtect, hb0]
+    · intro c hcq
+      simp [amfProtect, hb0] at hcq
+      rw [← hcq]; exact hc
+    · rw [hdec]
+      simp only [amfProtect, hb0, Bool.false_eq_true, if_false]
+      refine ⟨by show _ % countMod < 2 ^ 24; unfold countMod; omega, Or.inr ?_⟩
+      rw [cval_ofNat _ hc]; rfl
+
+/-- over any history, the k-th output is accepted by the conformant receiver holding the same context and the
+    NAS COUNT the conformant sender used for it, and yields the submitted plain message -/
+theorem ul_history_received (P : Prims) (hP : PrimsOk P) (ue : UeSec) (ops : List UlOp) (hs : Supported ue)
+    (hsc : ∀ op ∈ ops, UlInScope op) (k : Nat) (op : UlOp) (hk : ops[k]? = some op) (hctx : op.ctxAvail = true) :
+    ∃ c out, (runEncode P ue ops).2[k]? = some (.ok out) ∧
+      (ueRun P (ctxOf ue) ⟨cval ue.ulCount⟩ (ops.map toSend)).2[k]? = some (some c, some out) ∧
+      receive P (ctxOf ue) uplink c out = some op.plain := by
+  induction ops generalizing ue k with
+  | nil => simp at hk
+  | cons o os ih =>
+    obtain ⟨out, h1, h2, h3, -, h5, h6⟩ := ul_step_full P ue o hs (hsc o (by simp))
+    cases k with
+    | zero =>
+      simp only [List.getElem?_cons_zero, Option.some.injEq] at hk
+      subst hk
+      have hp : protect P (ctxOf ue) uplink (if o.newCtx then 0 else cval ue.ulCount) o.epd o.sht.toNat o.plain = some out := by
+        simpa [ueProtect, hctx] using h1
+      refine ⟨_, out, by simp [runEncode, h2], ?_, receive_protect P hP _ (supported_ea ue hs) _ _ _ _ _ _ hp⟩
+      simp [ueRun, toSend, ueProtect, hctx, hp]
+    | succ k =>
+      simp only [List.getElem?_cons_succ] at hk
+      obtain ⟨c, out', i1, i2, i3⟩ := ih (nasEncode P ue o).1 h6 (fun x hx => hsc x (by simp [hx])) k hk
+      rw [h5] at i2 i3
+      rw [h3] at i2
+      exact ⟨c, out', by simpa [runEncode] using i1, by simpa [ueRun, toSend] using i2, i3⟩
+
+
+/-- what C10 promises for a history of delivered downlink messages, message by message: the conformant AMF's
+    octets, given to `NASDecode` on the UE context as it stands, come back as the plain message, the UE's DL NAS
+    COUNT is then exactly the COUNT the AMF used (untouched by a plain message), and so on from the new states. -/
+def Recovered (dec : Prims → UeSec → UInt8 → Bytes → UeSec × Res Bytes) (P : Prims) : UeSec → Sender → List DlSend → Prop
+  | _, _, [] => True
+  | ue, s, m :: ms =>
+    ∃ out, (amfProtect P (ctxOf ue) s m.lost m.epd m.sht m.plain).2.2 = some out ∧
+      (dec P ue (UInt8.ofNat m.sht) out).2 = .ok m.plain ∧
+      (∀ c, (amfProtect P (ctxOf ue) s m.lost m.epd m.sht m.plain).2.1 = some c →
+          (dec P ue (UInt8.ofNat m.sht) out).1 = { ue with dlCount := UInt32.ofNat c }) ∧
+      ((amfProtect P (ctxOf ue) s m.lost m.epd m.sht m.plain).2.1 = none → (dec P ue (UInt8.ofNat m.sht) out).1 = ue) ∧
+      Recovered dec P (dec P ue (UInt8.ofNat m.sht) out).1 (amfProtect P (ctxOf ue) s m.lost m.epd m.sht m.plain).1 ms
+
+theorem dl_history (P : Prims) (hP : PrimsOk P) (ue : UeSec) (s : Sender) (msgs : List DlSend)
+    (hs : Supported ue) (hin : InStep ue s) (hsc : ∀ m ∈ msgs, DlInScope m) : Recovered nasDecode P ue s msgs := by
+  induction msgs generalizing ue s with
+  | nil => trivial
+  | cons m ms ih =>
+    obtain ⟨out, h1, h2, -, h4⟩ := dl_step_full P hP ue s m hs hin (hsc m (by simp))
+    refine ⟨out, h1, by rw [h2], ?_, ?_, ?_⟩
+    · intro c hc; rw [h2]; simp [hc]
+    · intro hn; rw [h2]; simp [hn]
+    · apply ih _ _ _ h4 (fun x hx => hsc x (by simp [hx]))
+      rw [h2]
+      cases (amfProtect P (ctxOf ue) s m.lost m.epd m.sht m.plain).2.1 <;> simpa [Supported] using hs
+  
+/-- `GetNasPdu` finds the NAS-PDU IE behind any number of other IEs and hands it to `NASDecode` with the header
+    type read from octet 2 -/
+theorem getNasPdu_skip (P : Prims) (ue : UeSec) (n : Nat) (e sht : UInt8) (rest : Bytes) (tail : List (Option Bytes)) :
+    getNasPdu P ue (List.replicate n none ++ some (e :: sht :: rest) :: tail) =
+      nilOnError (nasDecode P ue sht (e :: sht :: rest)) := by
+  induction n with
+  | zero => simp [getNasPdu, getNasPduWith]
+  | succ n ih =>
+    simp only [List.replicate_succ, List.cons_append]
+    unfold getNasPdu at ih ⊢
+    unfold getNasPduWith
+    exact ih
 
 end Stgutg.Proofs.NasProtect
